@@ -35,6 +35,13 @@ static inline bool size_mul_overflow(size_t a, size_t b, size_t *result) {
     return (*result / a) != b;
 }
 
+/* Number of bytes a tagged varint may occupy at 'ptr' without reaching 'end'
+ * (a tagged varint is at most 9 bytes).  Requires ptr <= end. */
+static inline int32_t taggedAvail(const uint8_t *ptr, const uint8_t *end) {
+    const size_t avail = (size_t)(end - ptr);
+    return avail > 9 ? 9 : (int32_t)avail;
+}
+
 /* Internal comparison function for qsort */
 static int compareUint64(const void *a, const void *b) {
     uint64_t va = *(const uint64_t *)a;
@@ -234,8 +241,8 @@ uint64_t *varintDictDecode(const uint8_t *buffer, size_t bufferLen,
 
     /* Read dictionary size */
     uint64_t dictSize64;
-    varintWidth w = varintTaggedGet64(ptr, &dictSize64);
-    if (w == 0 || ptr + w > end) {
+    varintWidth w = varintTaggedGet(ptr, taggedAvail(ptr, end), &dictSize64);
+    if (w == 0) {
         return NULL;
     }
     ptr += w;
@@ -259,8 +266,8 @@ uint64_t *varintDictDecode(const uint8_t *buffer, size_t bufferLen,
     }
 
     for (uint32_t i = 0; i < dictSize; i++) {
-        w = varintTaggedGet64(ptr, &dictValues[i]);
-        if (w == 0 || ptr + w > end) {
+        w = varintTaggedGet(ptr, taggedAvail(ptr, end), &dictValues[i]);
+        if (w == 0) {
             free(dictValues);
             return NULL;
         }
@@ -269,8 +276,8 @@ uint64_t *varintDictDecode(const uint8_t *buffer, size_t bufferLen,
 
     /* Read count */
     uint64_t count64;
-    w = varintTaggedGet64(ptr, &count64);
-    if (w == 0 || ptr + w > end) {
+    w = varintTaggedGet(ptr, taggedAvail(ptr, end), &count64);
+    if (w == 0) {
         free(dictValues);
         return NULL;
     }
@@ -286,8 +293,9 @@ uint64_t *varintDictDecode(const uint8_t *buffer, size_t bufferLen,
         varintExternalUnsignedEncoding(maxIndex, indexWidth);
     }
 
-    /* Check if we have enough buffer for indices */
-    if (ptr + (count * indexWidth) > end) {
+    /* Check if we have enough buffer for indices (count * indexWidth must
+     * not wrap: compare by division) */
+    if (count > (size_t)(end - ptr) / indexWidth) {
         free(dictValues);
         return NULL;
     }
@@ -328,8 +336,8 @@ size_t varintDictDecodeInto(const uint8_t *buffer, size_t bufferLen,
 
     /* Read dictionary size */
     uint64_t dictSize64;
-    varintWidth w = varintTaggedGet64(ptr, &dictSize64);
-    if (w == 0 || ptr + w > end) {
+    varintWidth w = varintTaggedGet(ptr, taggedAvail(ptr, end), &dictSize64);
+    if (w == 0) {
         return 0;
     }
     ptr += w;
@@ -353,8 +361,8 @@ size_t varintDictDecodeInto(const uint8_t *buffer, size_t bufferLen,
     }
 
     for (uint32_t i = 0; i < dictSize; i++) {
-        w = varintTaggedGet64(ptr, &dictValues[i]);
-        if (w == 0 || ptr + w > end) {
+        w = varintTaggedGet(ptr, taggedAvail(ptr, end), &dictValues[i]);
+        if (w == 0) {
             free(dictValues);
             return 0;
         }
@@ -363,8 +371,8 @@ size_t varintDictDecodeInto(const uint8_t *buffer, size_t bufferLen,
 
     /* Read count */
     uint64_t count64;
-    w = varintTaggedGet64(ptr, &count64);
-    if (w == 0 || ptr + w > end) {
+    w = varintTaggedGet(ptr, taggedAvail(ptr, end), &count64);
+    if (w == 0) {
         free(dictValues);
         return 0;
     }
@@ -386,8 +394,9 @@ size_t varintDictDecodeInto(const uint8_t *buffer, size_t bufferLen,
         varintExternalUnsignedEncoding(maxIndex, indexWidth);
     }
 
-    /* Check buffer bounds */
-    if (ptr + (count * indexWidth) > end) {
+    /* Check buffer bounds (count * indexWidth must not wrap: compare by
+     * division) */
+    if (count > (size_t)(end - ptr) / indexWidth) {
         free(dictValues);
         return 0;
     }
